@@ -1,5 +1,239 @@
-import RSocketModel.Engine.Step
-/-! # C12 — placeholder until the proofs land -/
+import RSocketModel.Engine.Invariants
+/-!
+# C12 — Hostile input and failing application code are contained
+
+`Engine.step` is a total function (Lean's termination checker): processing any input terminates.
+The theorems below are *locality* (a received frame touches only its own stream and is answered
+only on its own stream), *containment of application failures* and *liveness after any history*.
+-/
 namespace RSocketModel.Engine
-theorem c12_placeholder : (init 1).closed = false := rfl
+
+/-- every frame queued while processing a received frame is on that frame's stream -/
+theorem frameReceived_sends (st : State) (oid : Nat) (s : Stream) (f : Frame) :
+    ∀ g, Out.send g ∈ (frameReceived st oid s f).2 → g.sid = f.sid := by
+  unfold frameReceived
+  cases s.kind <;> simp only <;> cases f.ty <;> simp only <;> (repeat' split) <;> simp [mkError]
+
+theorem handleByType_sends (st : State) (f : Frame) (b : Behaviour) (hd : f.sid = 0 ∨ isInitiate f.ty = true) :
+    ∀ g, Out.send g ∈ (handleByType st f b).2 → g.sid = f.sid := by
+  unfold handleByType
+  cases hty : f.ty <;> simp only
+  case requestResponse => split <;> (try cases b) <;> simp only <;> (repeat' split) <;> simp_all [mkError]
+  case requestStream => split <;> (try cases b) <;> simp only <;> (repeat' split) <;> simp_all [mkError]
+  case requestFnf => split <;> (try cases b) <;> simp_all [mkError]
+  case requestChannel =>
+    split
+    · simp [mkError]
+    · cases b <;> simp only <;> (try simp [mkError])
+      rename_i hasPub hasSub
+      split
+      · simp [mkError]; omega
+      · cases hasPub <;> cases hasSub <;> cases f.complete <;> simp [mkPayload]
+  case setup =>
+    have h0 : f.sid = 0 := by rcases hd with h | h; exact h; simp [hty, isInitiate] at h
+    (repeat' split) <;> simp_all [mkError]
+  case metadataPush =>
+    have h0 : f.sid = 0 := by rcases hd with h | h; exact h; simp [hty, isInitiate] at h
+    cases b <;> simp_all [mkError]
+  case resume =>
+    have h0 : f.sid = 0 := by rcases hd with h | h; exact h; simp [hty, isInitiate] at h
+    simp_all [mkError]
+  case keepalive => split <;> simp
+  all_goals simp
+
+/-! ### the table entry of another stream is not touched -/
+
+theorem find_filter_ne (l : List (Nat × Nat)) (sid j : Nat) (h : j ≠ sid) :
+    (l.filter (·.1 != sid)).find? (·.1 == j) = l.find? (·.1 == j) := by
+  induction l with
+  | nil => rfl
+  | cons p rest ih =>
+    by_cases hp : p.1 = sid
+    · have hb : (p.1 != sid) = false := by simp [hp]
+      have hj : (p.1 == j) = false := by simp; omega
+      simp only [List.filter_cons, hb, Bool.false_eq_true, if_false, List.find?_cons, hj]
+      exact ih
+    · have hb : (p.1 != sid) = true := by simp [hp]
+      simp only [List.filter_cons, hb, if_true, List.find?_cons]
+      cases hpj : (p.1 == j)
+      · exact ih
+      · rfl
+
+@[simp] theorem oidOf_setObj (st : State) (oid : Nat) (s : Stream) (j : Nat) : (st.setObj oid s).oidOf j = st.oidOf j := rfl
+
+theorem oidOf_finish_ne (st : State) (sid j : Nat) (h : j ≠ sid) : (st.finish sid).oidOf j = st.oidOf j := by
+  simp only [State.oidOf, State.finish]
+  rw [find_filter_ne _ _ _ h]
+
+theorem oidOf_markChannel_ne (st : State) (oid : Nat) (s : Stream) (r t : Bool) (j : Nat) (h : j ≠ s.sid) :
+    (markChannel st oid s r t).oidOf j = st.oidOf j := by
+  simp only [markChannel]
+  split
+  · rw [oidOf_finish_ne _ _ _ h]; rfl
+  · rfl
+
+theorem oidOf_register_ne (st : State) (s : Stream) (j : Nat) (h : j ≠ s.sid) : (st.register s).1.oidOf j = st.oidOf j := by
+  simp only [State.oidOf, State.register, List.find?_append]
+  rw [find_filter_ne _ _ _ h]
+  have : ¬ (s.sid = j) := fun e => h e.symm
+  cases st.table.find? (·.1 == j) <;> simp [this]
+
+theorem oidOf_frameReceived_ne (st : State) (oid : Nat) (s : Stream) (f : Frame) (j : Nat) (h : j ≠ s.sid) :
+    (frameReceived st oid s f).1.oidOf j = st.oidOf j := by
+  unfold frameReceived
+  cases s.kind <;> simp only <;> cases f.ty <;> simp only <;> (repeat' split) <;>
+    simp [oidOf_finish_ne _ _ _ h, oidOf_markChannel_ne _ _ _ _ _ _ h]
+
+theorem oidOf_cacheAppend (st : State) (f : Frame) (j : Nat) : (cacheAppend st f).1.oidOf j = st.oidOf j := by
+  unfold cacheAppend
+  simp only
+  (repeat' split) <;> rfl
+
+theorem oidOf_handleByType_ne (st : State) (f : Frame) (b : Behaviour) (j : Nat) (h : j ≠ f.sid) :
+    (handleByType st f b).1.oidOf j = st.oidOf j := by
+  have hr : ∀ s : Stream, s.sid = f.sid → (st.register s).1.oidOf j = st.oidOf j :=
+    fun s hs => oidOf_register_ne st s j (by rw [hs]; exact h)
+  unfold handleByType
+  cases f.ty <;> simp only
+  case requestResponse => split <;> (try cases b) <;> simp only <;> (repeat' split) <;> (first | rfl | exact hr _ rfl)
+  case requestStream => split <;> (try cases b) <;> simp only <;> (repeat' split) <;> (first | rfl | exact hr _ rfl)
+  case requestFnf => split <;> (try cases b) <;> rfl
+  case setup => (repeat' split) <;> rfl
+  case metadataPush => cases b <;> rfl
+  case requestChannel =>
+    split
+    · rfl
+    · cases b <;> simp only <;> (try rfl)
+      rename_i hasPub hasSub
+      split
+      · rfl
+      · have hm : ∀ (st' : State) (oid : Nat) (s : Stream) (r t : Bool), s.sid = f.sid →
+            (markChannel st' oid s r t).oidOf j = st'.oidOf j :=
+          fun st' oid s r t hs => oidOf_markChannel_ne st' oid s r t j (by rw [hs]; exact h)
+        generalize hreg : st.register { kind := .chResp, sid := f.sid, hasPub := hasPub, subscribed := hasSub, setupDone := true } = r
+        have h0 : r.1.oidOf j = st.oidOf j := by rw [← hreg]; exact hr _ rfl
+        have ho : r.1.obj r.2 = some { kind := .chResp, sid := f.sid, hasPub := hasPub, subscribed := hasSub, setupDone := true } := by
+          rw [← hreg]; exact obj_register st _
+        rcases r with ⟨st0, oid⟩
+        simp only at h0 ho ⊢
+        cases hasSub <;> cases hasPub <;> cases f.complete <;>
+          simp [ho, markChannel_obj, hm, h0]
+  all_goals rfl
+
+theorem oidOf_stopOne_ne (st : State) (sid oid j : Nat) (h : j ≠ sid) : (stopOne st sid oid).1.oidOf j = st.oidOf j := by
+  unfold stopOne
+  (repeat' split) <;> simp [oidOf_finish_ne _ _ _ h]
+
+/-! ### property theorems -/
+
+/-- **answers are local**: every frame queued while a received frame is being processed — a
+response, an echo, or the ERROR that reports a protocol violation or a failing handler — is on
+that frame's own stream (stream 0 for setup / resume / metadata-push errors) -/
+theorem c12_sends_local (st : State) (h : WF st) (f : Frame) (b : Behaviour) :
+    ∀ g, Out.send g ∈ (step st (.recv f b)).2 → g.sid = f.sid := by
+  intro g hg
+  have hg' : Out.send g ∈ (recvStep st f b).2 := by
+    simp only [step, State.emit] at hg
+    split at hg
+    · exact (List.mem_filter.mp hg).1
+    · exact hg
+  clear hg
+  unfold recvStep at hg'
+  split at hg'
+  · simp at hg'
+  · have hspec := cacheAppend_spec st h f
+    generalize hgen : (if isFragmentable f.ty = true then cacheAppend st f else (st, some (Except.ok f))) = r at hg'
+    have hsid : ∀ cf, r.2 = some (.ok cf) → cf.sid = f.sid := by
+      intro cf hcf
+      rw [← hgen] at hcf
+      split at hcf
+      · exact hspec.2.1 cf hcf
+      · simp only [Option.some.injEq, Except.ok.injEq] at hcf; rw [← hcf]
+    rcases r with ⟨st', c⟩
+    simp only at hg' hsid
+    split at hg'
+    · simp at hg'
+    · simp [mkError] at hg'; rw [hg']
+    · rename_i _ cf
+      have hcs := hsid cf rfl
+      split at hg'
+      · rename_i hd
+        rw [← hcs]
+        exact handleByType_sends st' cf b (by simpa using hd) g hg'
+      · split at hg'
+        · simp at hg'
+        · split at hg'
+          · simp at hg'
+          · rw [← hcs]; exact frameReceived_sends st' _ _ cf g hg'
+
+/-- **other streams are not disturbed**: processing a received frame leaves the registration of
+every other stream exactly as it was -/
+theorem c12_other_streams_untouched (st : State) (h : WF st) (f : Frame) (b : Behaviour) (j : Nat) (hj : j ≠ f.sid) :
+    (step st (.recv f b)).1.oidOf j = st.oidOf j := by
+  simp only [step]
+  unfold recvStep
+  split
+  · rfl
+  · have hspec := cacheAppend_spec st h f
+    generalize hgen : (if isFragmentable f.ty = true then cacheAppend st f else (st, some (Except.ok f))) = r
+    have hsid : ∀ cf, r.2 = some (.ok cf) → cf.sid = f.sid := by
+      intro cf hcf
+      rw [← hgen] at hcf
+      split at hcf
+      · exact hspec.2.1 cf hcf
+      · simp only [Option.some.injEq, Except.ok.injEq] at hcf; rw [← hcf]
+    have hoid : r.1.oidOf j = st.oidOf j := by
+      rw [← hgen]; split
+      · exact oidOf_cacheAppend st f j
+      · rfl
+    have hw : WF r.1 := by
+      rw [← hgen]; split
+      · exact hspec.1
+      · exact h
+    rcases r with ⟨st', c⟩
+    simp only at hsid hoid hw ⊢
+    split
+    · exact hoid
+    · exact hoid
+    · rename_i _ cf
+      have hcs := hsid cf rfl
+      split
+      · rw [oidOf_handleByType_ne st' cf b j (by rw [hcs]; exact hj)]; exact hoid
+      · split
+        · exact hoid
+        · split
+          · exact hoid
+          · rename_i _ oid ho _ s hs
+            obtain ⟨s', hs', hss⟩ := oidOf_obj st' hw cf.sid oid ho
+            rw [hs] at hs'
+            cases hs'
+            rw [oidOf_frameReceived_ne st' oid s cf j (by rw [hss, hcs]; exact hj)]; exact hoid
+
+/-- **a failing handler is answered with an ERROR on the offending stream and nothing else
+happens**: for a request on a fresh, non-zero stream whose handler raises, the only effects are the
+handler call and one APPLICATION_ERROR frame on that stream; no stream is registered -/
+theorem c12_handler_failure_contained (st : State) (hc : st.closed = false) (ty : FType) (hty : isInitiate ty = true)
+    (sid : Nat) (hna : st.isActive sid = false) (hcache : (st.cache.find? (·.1 == sid)) = none) (data : List Nat) (n : Nat) :
+    step st (.recv { ty := ty, sid := sid, n := n, data := data } .raises) =
+      (st, [.handlerCall ty data, .send (mkError sid cApplicationError)]) := by
+  cases ty <;> simp [isInitiate] at hty <;>
+    simp [step, recvStep, hc, isFragmentable, cacheAppend, hcache, isInitiate, handleByType, hna, State.emit]
+
+/-- **the connection keeps serving**: in whatever state the endpoint is after any history (not
+closed), a fresh request-response on an unused non-zero stream is handed to the application, and
+once its future is resolved the response goes out on that stream -/
+theorem c12_probe_served (st : State) (hc : st.closed = false) (sid : Nat) (h0 : sid ≠ 0) (hna : st.isActive sid = false)
+    (hcache : (st.cache.find? (·.1 == sid)) = none) (req resp : List Nat) :
+    let r1 := step st (.recv { ty := .requestResponse, sid := sid, data := req } (.futReady resp))
+    r1.2 = [.handlerCall .requestResponse req, .created st.heap.length sid] ∧
+    (step r1.1 (.cbRRResp st.heap.length)).2 = [.send (mkPayload sid resp true)] := by
+  simp [step, recvStep, hc, isFragmentable, cacheAppend, hcache, isInitiate, handleByType, hna, h0, State.emit, State.register,
+    apiStep, State.obj, State.setObj, State.finish]
+
+/-- non-vacuity of the two statements above -/
+example : (init 2).closed = false ∧ (init 2).isActive 7 = false ∧ ((init 2).cache.find? (·.1 == 7)) = none := by decide
+
+/-- the model's step function is total: every event in every state has an outcome -/
+theorem c12_total (st : State) (ev : Ev) : ∃ st' outs, step st ev = (st', outs) := ⟨_, _, rfl⟩
+
 end RSocketModel.Engine
